@@ -111,13 +111,14 @@ fn plan_str(p: &Plan) -> String {
 }
 fn sched_str(s: &Sched) -> String {
     format!(
-        "prio={};batch={};spurious={};caller={};grace={};drop={}",
+        "prio={};batch={};spurious={};caller={};grace={};drop={};mt={}",
         s.prio.iter().map(|x| x.to_string()).collect::<Vec<_>>().join("."),
         s.batch,
         s.spurious as u8,
         s.caller.clone().unwrap_or_else(|| "-".into()),
         s.grace_us,
-        s.drop_unpolled as u8
+        s.drop_unpolled as u8,
+        s.mt as u8
     )
 }
 fn parse_plan(s: &str) -> Plan {
@@ -138,6 +139,7 @@ fn parse_sched(s: &str) -> Sched {
             "caller" => sc.caller = if v == "-" { None } else { Some(v.to_string()) },
             "grace" => sc.grace_us = v.parse().unwrap_or(0),
             "drop" => sc.drop_unpolled = v == "1",
+            "mt" => sc.mt = v == "1",
             _ => {}
         }
     }
@@ -368,6 +370,8 @@ pub fn run_case(cx: &CaseCtx, exp: &Exp, plan: &Plan, sched: &Sched) -> RunRec {
     let k = cx.case.kind;
     if k.is_threads() {
         exec::run_threads(cx.case, exp, plan, sched, &step_of)
+    } else if k.is_tasks() && sched.mt {
+        exec::run_async_tasks_mt(cx.case, exp, plan, sched)
     } else if k.is_tasks() {
         exec::run_async_tasks(cx.case, exp, plan, sched)
     } else if k.is_async() {
@@ -464,6 +468,11 @@ impl<'a> Engine<'a> {
             // the bounded-progress rule was already applied twice in this shard; further expiries are not
             // escalated (and therefore not judged)
             self.stats.inconclusive.push(format!("{} plan={}: expiry not escalated ({})", case_name(cx.case), plan_str(plan), first));
+            self.stats.runs += 1;
+            return None;
+        }
+        if let (Outcome::Hung(first), true) = (rec.outcome.clone(), sched.mt) {
+            self.stats.inconclusive.push(format!("{}: expiry on the multi-thread runtime ({})", case_name(cx.case), first));
             self.stats.runs += 1;
             return None;
         }
@@ -636,6 +645,24 @@ impl<'a> Engine<'a> {
                     if prof.iter().copied().max().unwrap_or(1) < 2 {
                         continue;
                     }
+                    if kind.is_tasks() {
+                        // stress: real parallelism on a multi-thread runtime, gates released as they arrive
+                        let exp0 = model::run(c.prog, kind, c.hk, &vec![]);
+                        for _ in 0..(if thorough { 6 } else { 1 }) {
+                            let gates = choose_gates(c, &exp0, GateMode::Subset, &mut rng);
+                            let (ps, _) = prios(&gates, 1, &mut rng);
+                            let mut gp = with_gates(&vec![], &gates);
+                            for a in all_acts(c.prog) {
+                                if rng.chance(1, 3) {
+                                    gp.push((a.id, crate::plan::DELAY));
+                                }
+                            }
+                            let s = Sched { prio: ps.into_iter().next().unwrap_or_default(), mt: true, ..default.clone() };
+                            if self.exec(cx, &gp, &s, n >= 2).is_some() {
+                                self.stats.bump("multi_thread_runtime_stress_runs", 1);
+                            }
+                        }
+                    }
                     let mut plans: Vec<Plan> = vec![vec![]];
                     for _ in 0..(if thorough { 4 } else { 1 }) {
                         if !fids.is_empty() {
@@ -700,6 +727,18 @@ impl<'a> Engine<'a> {
                 "C09" => {
                     if !kind.is_async() {
                         continue;
+                    }
+                    if kind.is_tasks() {
+                        let exp0 = model::run(c.prog, kind, c.hk, &vec![]);
+                        for _ in 0..(if thorough { 6 } else { 1 }) {
+                            let gates = choose_gates(c, &exp0, GateMode::All, &mut rng);
+                            let (ps, _) = prios(&gates, 1, &mut rng);
+                            let gp = with_gates(&vec![], &gates);
+                            let s = Sched { prio: ps.into_iter().next().unwrap_or_default(), mt: true, ..default.clone() };
+                            if self.exec(cx, &gp, &s, n >= 2).is_some() {
+                                self.stats.bump("multi_thread_runtime_stress_runs", 1);
+                            }
+                        }
                     }
                     // laziness: create and drop unpolled
                     self.exec(cx, &vec![], &Sched { drop_unpolled: true, ..default.clone() }, false);
